@@ -45,7 +45,10 @@ def conformance_case(draw):
             names = [k for k, _ in op[1]]
             extra = draw(st.lists(st.sampled_from([[b"from", ["N", 7.0]], [b"from", ["n"]], [b"from", ["A", []]], [b"from", S(b"/no/such/place")],
                                                    [b"value", ["N", 1.0]], [b"value", ["O", []]], [b"foo", S(b"bar")], [b"Op", S(b"remove")],
-                                                   [b"PATH", S(b"/x")], [b"", ["t"]], [b"path ", S(b"")]]), min_size=1, max_size=2))
+                                                   [b"PATH", S(b"/x")], [b"", ["t"]], [b"path ", S(b"")],
+                                                   # names that differ from the defined ones in letter case only are undefined members too
+                                                   [b"Value", ["N", 2.0]], [b"VALUE", S(b"other")], [b"From", S(b"/0")], [b"FROM", S(b"")],
+                                                   [b"OP", S(b"test")], [b"Path", S(b"")], [b"oP", S(b"add")]]), min_size=1, max_size=3))
             extra = [e for e in extra if e[0] not in names]
             if extra:
                 pos = draw(st.integers(0, len(op[1])))
@@ -142,7 +145,9 @@ def one_op(draw, cur):
         a = arrays[draw(st.integers(0, len(arrays) - 1))]
         n = len(rfc.node_at(cur, a)[1])
         i = draw(st.integers(0, max(n - 1, 0)))
-        tok = draw(st.sampled_from([b"+%d", b" %d", b"\t%d", b"-%d", b"%d ", b"0x%d", b"%de0", b"%d.0", b" 0%d", b"+0%d", b"%d\n", b"\n%d"])) % i
+        tok = draw(st.sampled_from([b"+%d", b" %d", b"\t%d", b"-%d", b"%d ", b"0x%d", b"%de0", b"%d.0", b" 0%d", b"+0%d", b"%d\n", b"\n%d",
+                                    # escapes in a token addressed to an ARRAY: the decoded token holds '/' or '~'
+                                    b"%d~1", b"~1%d", b"x~1%d", b"%d~0", b"~0%d", b"~1", b"%d~1%d"])).replace(b"%d", b"%d" % i)
         o = draw(st.sampled_from(OPNAMES))
         loc = ptr(a) + b"/" + tok
         if o in (b"copy", b"move"):
